@@ -173,6 +173,7 @@ func (s *Solver) check(extra []*Term, wantModel map[string]int) (string, map[str
 			model = map[string]uint64{}
 			for n, w := range wantModel {
 				if !s.declared[n] {
+					model[n] = 0 // unconstrained: any value is a witness
 					continue
 				}
 				s.send("(get-value (" + n + "))")
